@@ -1,54 +1,9 @@
 (* C06 — proofs, part 10: the word-level round trip.  For every word (text)
    the lexer produces, the printed text followed by any text that does not
    extend it is lexed back to the same units and the same rest. *)
-From Yv Require Import Common.Base C06.Ast C06.Print C06.Lex C06.LexEq C06.ProofsLen
+From Yv Require Import Common.Base C06.Ast C06.Print C06.Lex C06.SpecLex C06.LexEq C06.ProofsLen
   C06.ProofsStop C06.ProofsTilde C06.ProofsEscape C06.ProofsRtBase.
 Local Open Scope N_scope.
-
-Definition hd (z : str) : option N := match z with c :: _ => Some c | [] => None end.
-
-(* a character that may follow a literal dollar sign *)
-Definition dollar_ok (c : N) : bool :=
-  match special_of_char c with
-  | Some _ => false
-  | None => negb (is_digit c || is_name_char c || (c =? c_lbrace) || (c =? c_lparen))
-  end.
-
-(* what may follow the printed form of a text unit ([h] = first character of
-   what follows, which does not start with a line continuation) *)
-Definition fo_tu (e : esc) (u : text_unit) (h : option N) : Prop :=
-  match u with
-  | Literal c =>
-      ((c =? c_dollar) = true ->
-       match h with Some c' => dollar_ok c' = true | None => True end) /\
-      ((c =? c_bslash) = true ->
-       match h with Some c' => is_esc e c' = false /\ (c' =? c_nl) = false | None => True end)
-  | RawParam p =>
-      p_type p = PtVariable ->
-      match h with Some c' => is_name_char c' = false | None => True end
-  | _ => True
-  end.
-
-Definition fo_wu (cx : ctx) (d : delim) (u : word_unit) (h : option N) : Prop :=
-  match u with
-  | Unquoted t =>
-      fo_tu (esc_of cx d) t h /\
-      (cx = CWord -> t = Literal c_dollar -> h <> Some c_sq)
-  | _ => True
-  end.
-
-Fixpoint last_opt {A} (l : list A) : option A :=
-  match l with
-  | [] => None
-  | [x] => Some x
-  | _ :: l => last_opt l
-  end.
-
-Definition last_fo_text (e : esc) (t : text) (h : option N) : Prop :=
-  match last_opt t with Some u => fo_tu e u h | None => True end.
-
-Definition last_fo_word (cx : ctx) (d : delim) (w : word) (h : option N) : Prop :=
-  match last_opt w with Some u => fo_wu cx d u h | None => True end.
 
 (* delimiters are never a backslash, a dollar sign or a backquote *)
 Lemma delim_plain d c :
@@ -61,31 +16,6 @@ Qed.
 Lemma hd_nolc_cons c z : nolc (c :: z) -> hd (c :: z) = Some c.
 Proof. reflexivity. Qed.
 
-(* Units the round-trip theorems cover: every unit except a command
-   substitution whose content starts with an opening parenthesis.  Such a
-   substitution is only accepted through the fallback of the arithmetic
-   expansion (`$((` ... `) )`), and whether its printed form is read as a
-   command substitution again depends on the text that follows the word. *)
-Fixpoint ok_tu (u : text_unit) : bool :=
-  match u with
-  | CommandSubst c => negb (match skip_lc c with c0 :: _ => c0 =? c_lparen | [] => false end)
-  | BracedParam _ m =>
-      match m with
-      | MSwitch _ _ w | MTrim _ _ w => forallb ok_wu w
-      | _ => true
-      end
-  | Arith t => forallb ok_tu t
-  | _ => true
-  end
-with ok_wu (u : word_unit) : bool :=
-  match u with
-  | Unquoted t => ok_tu t
-  | DoubleQuote t => forallb ok_tu t
-  | _ => true
-  end.
-
-Definition ok_text (t : text) : bool := forallb ok_tu t.
-Definition ok_word (w : word) : bool := forallb ok_wu w.
 
 Lemma tilde_name_lits colon w n name sl :
   tilde_name colon w = Some (n, name, sl) -> ok_word (firstn n w) = true.
@@ -148,11 +78,13 @@ Section Rt.
     repeat match goal with H : _ = false |- _ => rewrite H; clear H end. reflexivity.
   Qed.
 
-  Lemma lex_bq_units f cx s us r : lex_bq f cx s = Ok (us, r) -> (length us < f)%nat.
+  Lemma lex_bq_units f cx s us r :
+    lex_bq f cx s = Ok (us, r) -> r <> [] -> (length us < f)%nat.
   Proof.
-    revert s us r. induction f as [|f IH]; intros s us r H; cbn [lex_bq] in H; [discriminate|].
-    unfold bind in H. dmall; clean; cbn [length]; try lia.
-    all: repeat match goal with E : lex_bq _ _ _ = Ok _ |- _ => apply IH in E end; cbn [length] in *; lia.
+    revert s us r. induction f as [|f IH]; intros s us r H Hr; cbn [lex_bq] in H; [discriminate|].
+    unfold bind in H. dmall; clean; cbn [length]; try lia; try congruence.
+    all: repeat match goal with E : lex_bq _ _ _ = Ok _ |- _ => apply IH in E; [|assumption] end;
+         cbn [length] in *; lia.
   Qed.
 
   (* ---- the statements, by fuel ------------------------------------------------------------ *)
@@ -162,45 +94,45 @@ Section Rt.
     (exists c t t', skip_lc s = c :: t /\ print_tu u = c :: t') /\
     fo_tu e u (hd (skip_lc r)) /\
     (forall z, nolc z -> fo_tu e u (hd z) ->
-       nolc (print_tu u ++ z) /\ lex_tu inner f cx d e (print_tu u ++ z) = Ok (Some u, z)).
+       nolc (print_tu u ++ z) /\ lex_tu inner (S (S f)) cx d e (print_tu u ++ z) = Ok (Some u, z)).
 
   Definition S_dollar (f : nat) := forall cx s u r,
     lex_dollar inner f cx s = Ok (Some u, r) -> ok_tu u = true ->
     (exists t', print_tu u = c_dollar :: t' /\
        forall z, nolc z -> (forall e, fo_tu e u (hd z)) ->
-         lex_dollar inner f cx (t' ++ z) = Ok (Some u, z)) /\
+         lex_dollar inner (S (S f)) cx (t' ++ z) = Ok (Some u, z)) /\
     (forall e, fo_tu e u (hd (skip_lc r))).
 
   Definition S_braced (f : nat) := forall cx s u r,
     lex_braced inner f cx s = Ok (u, r) -> ok_tu u = true ->
     exists t', print_tu u = c_dollar :: c_lbrace :: t' /\
       (forall e h, fo_tu e u h) /\
-      forall z, lex_braced inner f cx (t' ++ z) = Ok (u, z).
+      forall z, lex_braced inner (S (S f)) cx (t' ++ z) = Ok (u, z).
 
   Definition S_text (f : nat) := forall d e s t r,
     lex_text inner f d e s = Ok (t, r) -> ok_text t = true ->
     nolc r /\ stops d r /\ last_fo_text e t (hd r) /\
     (t <> [] -> exists c x y, skip_lc s = c :: x /\ print_text t = c :: y) /\
     (forall z, nolc z -> stops d z -> last_fo_text e t (hd z) ->
-       nolc (print_text t ++ z) /\ lex_text inner f d e (print_text t ++ z) = Ok (t, z)).
+       nolc (print_text t ++ z) /\ lex_text inner (S (S f)) d e (print_text t ++ z) = Ok (t, z)).
 
   Definition S_twp (f : nat) := forall depth s t r,
     lex_twp inner f depth s = Ok (t, r) -> ok_text t = true ->
-    forall z, lex_twp inner f depth (print_text t ++ c_rparen :: z) = Ok (t, c_rparen :: z).
+    forall z, lex_twp inner (S (S f)) depth (print_text t ++ c_rparen :: z) = Ok (t, c_rparen :: z).
 
   Definition S_wu (f : nat) := forall cx d s u r,
     lex_wu inner f cx d s = Ok (Some u, r) -> ok_wu u = true ->
     (exists c t t', skip_lc s = c :: t /\ print_wu u = c :: t') /\
     fo_wu cx d u (hd (skip_lc r)) /\
     (forall z, nolc z -> fo_wu cx d u (hd z) ->
-       nolc (print_wu u ++ z) /\ lex_wu inner f cx d (print_wu u ++ z) = Ok (Some u, z)).
+       nolc (print_wu u ++ z) /\ lex_wu inner (S (S f)) cx d (print_wu u ++ z) = Ok (Some u, z)).
 
   Definition S_units (f : nat) := forall cx d s w r,
-    lex_units inner f cx d s = Ok (w, r) -> ok_word w = true ->
+    lex_units inner f cx d s = Ok (w, r) -> ok_word w = true -> d <> DDQuote ->
     nolc r /\ stops d r /\ last_fo_word cx d w (hd r) /\
     (w <> [] -> exists c x y, skip_lc s = c :: x /\ print_word w = c :: y) /\
     (forall z, nolc z -> stops d z -> last_fo_word cx d w (hd z) ->
-       nolc (print_word w ++ z) /\ lex_units inner f cx d (print_word w ++ z) = Ok (w, z)).
+       nolc (print_word w ++ z) /\ lex_units inner (S (S f)) cx d (print_word w ++ z) = Ok (w, z)).
 
   Definition S_all f :=
     S_tu f /\ S_dollar f /\ S_braced f /\ S_text f /\ S_twp f /\ S_wu f /\ S_units f.
@@ -217,7 +149,7 @@ Section Rt.
     { (* backslash *)
       apply N.eqb_eq in Eb. subst c.
       destruct s1 as [|c2 s2].
-      - inv H. split; [eauto|]. cbn [skip_lc hd fo_tu]. split; [split; intros; exact I|].
+      - inv H. split; [eexists _, _, _; split; reflexivity|]. cbn [skip_lc hd fo_tu]. split; [split; intros; exact I|].
         intros z Hz [_ Hf]. specialize (Hf eq_refl). cbn [print_tu app].
         destruct z as [|c' z'].
         + split; [reflexivity|]. rewrite lex_tu_eq. reflexivity.
@@ -226,15 +158,14 @@ Section Rt.
           change (c_bslash =? c_bslash) with true. cbv iota. rewrite Hf1. reflexivity.
       - pose proof (skip_lc_bslash_next _ _ _ Es) as Hnl.
         destruct (is_esc e c2) eqn:Ee.
-        + inv H. split; [eauto|]. split; [exact I|].
+        + inv H. split; [eexists _, _, _; split; reflexivity|]. split; [exact I|].
           intros z Hz _. cbn [print_tu app]. split; [apply nolc_bslash; exact Hnl|].
           rewrite lex_tu_eq, (nolc_bslash _ _ Hnl).
           change (c_bslash =? c_bslash) with true. cbv iota. rewrite Ee. reflexivity.
-        + inv H. split; [eauto|].
+        + inv H. split; [eexists _, _, _; split; reflexivity|].
           assert (Hc2 : (c2 =? c_bslash) = false).
           { destruct (c2 =? c_bslash) eqn:X; [|reflexivity]. apply N.eqb_eq in X. subst.
-            destruct e as [| | |]; cbn in Ee; try discriminate.
-            rewrite !Bool.orb_true_r in Ee. cbn in Ee. discriminate. }
+            destruct e as [| | |]; cbn in Ee; discriminate. }
           rewrite (skip_lc_nonbslash _ _ Hc2). cbn [hd fo_tu].
           split; [split; [intros X; discriminate | intros _; auto]|].
           intros z Hz [_ Hf]. specialize (Hf eq_refl). cbn [print_tu app].
@@ -248,27 +179,26 @@ Section Rt.
       apply N.eqb_eq in Ed. subst c.
       destruct (lex_dollar inner f cx s1) as [[[u'|] r']| | | |] eqn:E1; try discriminate.
       - inv H. destruct (Hdol _ _ _ _ E1 Hok) as [(t' & Ep & Hrt) Hfo].
-        split; [eauto|]. split; [apply Hfo|].
+        split; [rewrite Ep; eexists _, _, _; split; reflexivity|]. split; [apply Hfo|].
         intros z Hz Hf. rewrite Ep. cbn [app]. split; [apply nolc_cons; reflexivity|].
         rewrite lex_tu_eq. rewrite skip_lc_nonbslash by reflexivity.
         change (c_dollar =? c_bslash) with false. change (c_dollar =? c_dollar) with true.
         cbv iota. unfold bind. rewrite Hrt; auto.
         (* the follow condition does not depend on the escapable set for these units *)
-        intros e'. destruct u'; cbn [fo_tu] in *; auto.
-        destruct (Hdol _ _ _ _ E1 Hok) as [_ X]. clear - Ep. cbn [print_tu] in Ep. inv Ep.
+        intros e'. destruct u; cbn [fo_tu] in *; auto.
+        cbn [print_tu] in Ep. inv Ep. destruct Hf as [A _]. split; [exact A | intros X; discriminate].
       - destruct (is_delim d c_dollar) eqn:Edl; [discriminate|]. inv H.
-        split; [eauto|].
+        split; [eexists _, _, _; split; reflexivity|].
         pose proof (lex_dollar_none _ _ _ _ E1) as Hn.
         split.
         { cbn [fo_tu]. split; [intros _|intros X; discriminate].
-          destruct (skip_lc s1); [exact I | exact Hn]. }
+          destruct (skip_lc r); [exact I | exact Hn]. }
         intros z Hz [Hf _]. specialize (Hf eq_refl). cbn [print_tu app].
         split; [apply nolc_cons; reflexivity|].
         rewrite lex_tu_eq. rewrite skip_lc_nonbslash by reflexivity.
         change (c_dollar =? c_bslash) with false. change (c_dollar =? c_dollar) with true.
         cbv iota. unfold bind.
-        destruct f as [|f']; [discriminate|].
-        rewrite (lex_dollar_stop f' cx z Hz).
+        rewrite (lex_dollar_stop (S f) cx z Hz).
         + rewrite Edl. reflexivity.
         + destruct z; [exact I | exact Hf]. }
     destruct (c =? c_bq) eqn:Eq.
@@ -285,12 +215,903 @@ Section Rt.
       change (c_bq =? c_bslash) with false. change (c_bq =? c_dollar) with false.
       change (c_bq =? c_bq) with true. cbv iota. unfold bind.
       rewrite <- app_assoc. cbn [app].
-      rewrite (lex_bq_print cx us z f W (lex_bq_units _ _ _ _ _ E1)). reflexivity. }
+      pose proof (lex_bq_print cx us z (S (S f)) W
+                    ltac:(pose proof (lex_bq_units _ _ _ _ _ E1 ltac:(discriminate)); lia)) as X.
+      unfold c_bq in X. rewrite X. reflexivity. }
     (* plain literal *)
     destruct (is_delim d c) eqn:Edl; [discriminate|]. inv H.
-    split; [eauto|]. split.
+    split; [eexists _, _, _; split; reflexivity|]. split.
     { cbn [fo_tu]. rewrite Ed, Eb. split; intros X; discriminate. }
     intros z Hz _. cbn [print_tu app]. split; [apply nolc_cons; exact Eb|].
     rewrite lex_tu_eq. rewrite (skip_lc_nonbslash _ _ Eb). rewrite Eb, Ed, Eq, Edl. reflexivity.
   Qed.
+
+  (* appending text that starts with a closing parenthesis does not create an
+     opening parenthesis at the head *)
+  Lemma skip_lc_app_rparen content z :
+    match skip_lc content with c0 :: _ => (c0 =? c_lparen) = false | [] => True end ->
+    match skip_lc (content ++ c_rparen :: z) with
+    | c0 :: _ => (c0 =? c_lparen) = false
+    | [] => True
+    end.
+  Proof.
+    remember (len content) as n eqn:E. revert content E.
+    induction n as [n IH] using lt_wf_ind. intros content E H.
+    destruct content as [|c1 [|c2 t]].
+    - cbn [app]. rewrite skip_lc_nonbslash by reflexivity. reflexivity.
+    - cbn [app]. cbn [skip_lc] in H |- *.
+      destruct ((c1 =? c_bslash) && (c_rparen =? c_nl)) eqn:X.
+      + apply andb_prop in X. destruct X as [_ X]. discriminate.
+      + exact H.
+    - cbn [app skip_lc] in H |- *.
+      destruct ((c1 =? c_bslash) && (c2 =? c_nl)) eqn:X.
+      + apply (IH (len t)); [subst; cbn [length]; lia | reflexivity | exact H].
+      + exact H.
+  Qed.
+
+  Lemma special_not_bslash c sp : special_of_char c = Some sp -> (c =? c_bslash) = false.
+  Proof.
+    intros H. destruct (c =? c_bslash) eqn:E; [|reflexivity]. apply N.eqb_eq in E. subst.
+    cbn in H. discriminate.
+  Qed.
+
+  Lemma digit_not_bslash c : is_digit c = true -> (c =? c_bslash) = false.
+  Proof.
+    intros H. destruct (c =? c_bslash) eqn:E; [|reflexivity]. apply N.eqb_eq in E. subst.
+    cbn in H. discriminate.
+  Qed.
+
+  Lemma S_dollar_S f : S_all f -> S_dollar (S f).
+  Proof.
+    intros (Htu & Hdol & Hbr & Htx & Htwp & Hwu & Hun) cx s u r H Hok.
+    rewrite lex_dollar_eq in H. unfold bind in H. cbv zeta in H.
+    destruct (skip_lc s) as [|c s1] eqn:Es; [discriminate|].
+    destruct (special_of_char c) as [sp|] eqn:Esp.
+    { inv H. split; [|intros e; cbn [fo_tu p_type]; intros X; discriminate].
+      exists [c]. split; [reflexivity|]. intros z Hz _. cbn [app].
+      rewrite lex_dollar_eq. rewrite (skip_lc_nonbslash _ _ (special_not_bslash _ _ Esp)).
+      rewrite Esp. reflexivity. }
+    destruct (is_digit c) eqn:Edg.
+    { inv H. split; [|intros e; cbn [fo_tu p_type]; intros X; discriminate].
+      exists [c]. split; [reflexivity|]. intros z Hz _. cbn [app].
+      rewrite lex_dollar_eq. rewrite (skip_lc_nonbslash _ _ (digit_not_bslash _ Edg)).
+      rewrite Esp, Edg. reflexivity. }
+    destruct (is_name_char c) eqn:Enm.
+    { destruct (lex_name (len s1) s1) as [n r'] eqn:En. inv H.
+      destruct (lex_name_spec _ _ _ _ En ltac:(lia)) as (A & B & C).
+      split.
+      - exists (c :: n). split; [reflexivity|]. intros z Hz Hf. specialize (Hf EAll).
+        cbn [fo_tu p_type] in Hf. specialize (Hf eq_refl). cbn [app].
+        rewrite lex_dollar_eq. rewrite (skip_lc_nonbslash _ _ (name_char_not_bslash _ Enm)).
+        rewrite Esp, Edg, Enm.
+        rewrite (lex_name_print n z (len (n ++ z)) A Hz).
+        + reflexivity.
+        + destruct z; [exact I | exact Hf].
+        + rewrite app_length. lia.
+      - intros e. cbn [fo_tu p_type]. intros _. rewrite B. destruct r; [exact I | exact C]. }
+    destruct (c =? c_lbrace) eqn:Elb.
+    { destruct (lex_braced inner f cx s1) as [[u' r']| | | |] eqn:E1; try discriminate. inv H.
+      destruct (Hbr _ _ _ _ E1 Hok) as (t' & Ep & Hfo & Hrt).
+      split; [|intros e; apply Hfo].
+      exists (c_lbrace :: t'). split; [exact Ep|]. intros z Hz _. cbn [app].
+      rewrite lex_dollar_eq. rewrite skip_lc_nonbslash by reflexivity.
+      change (special_of_char c_lbrace) with (@None special_param).
+      change (is_digit c_lbrace) with false. change (is_name_char c_lbrace) with false.
+      change (c_lbrace =? c_lbrace) with true. cbv iota. unfold bind. rewrite Hrt. reflexivity. }
+    destruct (c =? c_lparen) eqn:Elp; [|inv H].
+    apply N.eqb_eq in Elp. subst c.
+    (* what a command substitution in the first run tells *)
+    assert (CS : forall content r0,
+               inner s1 = Ok (content, r0) ->
+               forall c' r', skip_lc r0 = c' :: r' -> (c' =? c_rparen) = true ->
+               ok_tu (CommandSubst content) = true ->
+               (exists t', print_tu (CommandSubst content) = c_dollar :: t' /\
+                  forall z, nolc z -> (forall e, fo_tu e (CommandSubst content) (hd z)) ->
+                    lex_dollar inner (S (S (S f))) cx (t' ++ z) = Ok (Some (CommandSubst content), z))).
+    { intros content r0 Ei c' r' Er Ec Hk. apply N.eqb_eq in Ec. subst c'.
+      exists (c_lparen :: content ++ [c_rparen]). split; [reflexivity|].
+      intros z Hz _. cbn [app]. rewrite <- app_assoc. cbn [app].
+      rewrite lex_dollar_eq. rewrite skip_lc_nonbslash by reflexivity.
+      change (special_of_char c_lparen) with (@None special_param).
+      change (is_digit c_lparen) with false. change (is_name_char c_lparen) with false.
+      change (c_lparen =? c_lbrace) with false. change (c_lparen =? c_lparen) with true.
+      cbv iota zeta. unfold bind.
+      cbn [ok_tu] in Hk. apply Bool.negb_true_iff in Hk.
+      pose proof (skip_lc_app_rparen content z) as X.
+      rewrite (inner_rt _ _ _ _ Ei Er z).
+      rewrite (skip_lc_nonbslash c_rparen z) by reflexivity.
+      change (c_rparen =? c_rparen) with true. cbv iota.
+      destruct (skip_lc (content ++ c_rparen :: z)) as [|c0 t0].
+      - reflexivity.
+      - rewrite X; [reflexivity|]. destruct (skip_lc content); [exact I | exact Hk]. }
+    destruct (skip_lc s1) as [|c' s2] eqn:Es1.
+    { (* `$(` at the end of the input: only a command substitution *)
+      destruct (inner s1) as [[content r0]| | | |] eqn:Ei; try discriminate.
+      destruct (skip_lc r0) as [|c'' r''] eqn:Er; [discriminate|].
+      destruct (c'' =? c_rparen) eqn:Ec; [|discriminate]. inv H.
+      split; [eapply CS; eauto | intros e; exact I]. }
+    destruct (c' =? c_lparen) eqn:Ec'.
+    - (* arithmetic expansion or fallback *)
+      destruct (lex_twp inner f 0 s2) as [[content r1]| | | |] eqn:Et; try discriminate.
+      destruct (skip_lc r1) as [|c1 r1'] eqn:Er1; [discriminate|].
+      destruct (c1 =? c_rparen) eqn:Ec1; [|discriminate].
+      destruct (skip_lc r1') as [|c2 r2] eqn:Er2; [discriminate|].
+      destruct (c2 =? c_rparen) eqn:Ec2.
+      + inv H. split; [|intros e; exact I].
+        exists (c_lparen :: c_lparen :: print_text content ++ [c_rparen; c_rparen]).
+        split; [reflexivity|]. intros z Hz _. cbn [app]. rewrite <- app_assoc. cbn [app].
+        rewrite lex_dollar_eq. rewrite skip_lc_nonbslash by reflexivity.
+        change (special_of_char c_lparen) with (@None special_param).
+        change (is_digit c_lparen) with false. change (is_name_char c_lparen) with false.
+        change (c_lparen =? c_lbrace) with false. change (c_lparen =? c_lparen) with true.
+        cbv iota zeta. unfold bind.
+        rewrite (skip_lc_nonbslash c_lparen) by reflexivity.
+        change (c_lparen =? c_lparen) with true. cbv iota.
+        cbn [ok_tu] in Hok.
+        rewrite (Htwp _ _ _ _ Et Hok (c_rparen :: z)).
+        rewrite (skip_lc_nonbslash c_rparen (c_rparen :: z)) by reflexivity.
+        change (c_rparen =? c_rparen) with true. cbv iota.
+        rewrite (skip_lc_nonbslash c_rparen z) by reflexivity.
+        change (c_rparen =? c_rparen) with true. cbv iota. reflexivity.
+      + destruct (inner s1) as [[content' r0]| | | |] eqn:Ei; try discriminate.
+        destruct (skip_lc r0) as [|c'' r''] eqn:Er; [discriminate|].
+        destruct (c'' =? c_rparen) eqn:Ec; [|discriminate]. inv H.
+        split; [eapply CS; eauto | intros e; exact I].
+    - destruct (inner s1) as [[content' r0]| | | |] eqn:Ei; try discriminate.
+      destruct (skip_lc r0) as [|c'' r''] eqn:Er; [discriminate|].
+      destruct (c'' =? c_rparen) eqn:Ec; [|discriminate]. inv H.
+      split; [eapply CS; eauto | intros e; exact I].
+  Qed.
+
+  (* ---- braced parameter expansions ---------------------------------------------------------- *)
+
+  (* first character of a parameter: a name character or a special parameter *)
+  Definition param_head (c : N) (p : param) : Prop :=
+    (is_name_char c = true /\ exists n, p_id p = c :: n /\ forallb is_name_char n = true) \/
+    (is_name_char c = false /\ (exists sp, special_of_char c = Some sp) /\ p_id p = [c]).
+
+  Lemma lex_param_spec s0 p r :
+    lex_param s0 = Ok (p, r) ->
+    exists c t, skip_lc s0 = c :: t /\ param_head c p /\
+      forall x, nolc x -> match x with c' :: _ => is_name_char c' = false | [] => True end ->
+        lex_param (p_id p ++ x) = Ok (p, x).
+  Proof.
+    unfold lex_param. destruct (skip_lc s0) as [|c s1] eqn:E; [discriminate|].
+    destruct (is_name_char c) eqn:En.
+    - destruct (lex_name (len s1) s1) as [n r'] eqn:El.
+      destruct (type_of_id (c :: n)) as [t|] eqn:Et; [|discriminate].
+      intros H. inv H. destruct (lex_name_spec _ _ _ _ El ltac:(lia)) as (A & B & C).
+      exists c, s1. split; [reflexivity|]. split; [left; split; [exact En|]; exists n; auto|].
+      intros x Hx Hh. cbn [p_id app].
+      rewrite (skip_lc_nonbslash _ _ (name_char_not_bslash _ En)). rewrite En.
+      rewrite (lex_name_print n x (len (n ++ x)) A Hx Hh) by (rewrite app_length; lia).
+      rewrite Et. reflexivity.
+    - destruct (special_of_char c) as [sp|] eqn:Es; [|discriminate].
+      intros H. inv H. exists c, r. split; [reflexivity|]. split; [right; repeat split; eauto|].
+      intros x Hx Hh. cbn [p_id app].
+      rewrite (skip_lc_nonbslash _ _ (special_not_bslash _ _ Es)). rewrite En, Es. reflexivity.
+  Qed.
+
+  Lemma param_head_not_bslash c p : param_head c p -> (c =? c_bslash) = false.
+  Proof.
+    intros [[A _]|(_ & (sp & B) & _)]; [apply name_char_not_bslash | eapply special_not_bslash]; eauto.
+  Qed.
+
+  (* the head of a parameter is none of } + = : % *)
+  Lemma param_head_not_mod c p :
+    param_head c p ->
+    (c =? 125) || (c =? 43) || (c =? 61) || (c =? 58) || (c =? 37) = false.
+  Proof.
+    intros H.
+    destruct ((c =? 125) || (c =? 43) || (c =? 61) || (c =? 58) || (c =? 37)) eqn:E; [|reflexivity].
+    exfalso.
+    repeat (apply Bool.orb_true_iff in E; destruct E as [E|E]);
+      apply N.eqb_eq in E; subst c;
+      destruct H as [[A _]|(_ & (sp & B) & _)]; cbn in *; discriminate.
+  Qed.
+
+  (* - ? # as the head of a parameter: a special parameter of one character *)
+  Lemma param_head_special c p :
+    param_head c p -> (c =? 45) || (c =? 63) || (c =? 35) = true -> p_id p = [c].
+  Proof.
+    intros H E. destruct H as [[A _]|(_ & _ & B)]; [|exact B].
+    exfalso. repeat (apply Bool.orb_true_iff in E; destruct E as [E|E]);
+      apply N.eqb_eq in E; subst c; cbn in A; discriminate.
+  Qed.
+
+  Definition print_mod (m : modifier) : str :=
+    match m with
+    | MNone | MLength => []
+    | MSwitch a c w => print_cond c ++ [print_action a] ++ print_word w
+    | MTrim sd l w =>
+        (print_side sd :: match l with TlShortest => [] | TlLongest => [print_side sd] end)
+        ++ print_word w
+    end.
+
+  Lemma print_braced p m :
+    m <> MLength ->
+    print_tu (BracedParam p m) = [c_dollar; c_lbrace] ++ p_id p ++ print_mod m ++ [c_rbrace].
+  Proof.
+    intros Hm. destruct m; cbn [print_tu print_mod app]; try congruence;
+      unfold print_word; rewrite <- ?app_assoc; cbn [app]; try reflexivity.
+  Qed.
+
+  Lemma print_action_of sym :
+    (sym =? 43) || (sym =? 45) || (sym =? 61) || (sym =? 63) = true ->
+    print_action (switch_action_of sym) = sym.
+  Proof.
+    intros H. unfold switch_action_of.
+    destruct (sym =? 43) eqn:E1; [apply N.eqb_eq in E1; subst; reflexivity|].
+    destruct (sym =? 45) eqn:E2; [apply N.eqb_eq in E2; subst; reflexivity|].
+    destruct (sym =? 61) eqn:E3; [apply N.eqb_eq in E3; subst; reflexivity|].
+    cbn [orb] in H. apply N.eqb_eq in H. subst. reflexivity.
+  Qed.
+
+  Lemma switch_not_name sym :
+    (sym =? 43) || (sym =? 45) || (sym =? 61) || (sym =? 63) = true ->
+    is_name_char sym = false /\ (sym =? c_bslash) = false /\ (sym =? 58) = false /\
+    (sym =? c_rbrace) = false.
+  Proof.
+    intros H. repeat (apply Bool.orb_true_iff in H; destruct H as [H|H]);
+      apply N.eqb_eq in H; subst; repeat split; reflexivity.
+  Qed.
+
+  Lemma trim_not_name sym :
+    (sym =? 35) || (sym =? 37) = true ->
+    is_name_char sym = false /\ (sym =? c_bslash) = false /\ (sym =? 58) = false /\
+    (sym =? c_rbrace) = false /\
+    (sym =? 43) || (sym =? 45) || (sym =? 61) || (sym =? 63) = false.
+  Proof.
+    intros H. repeat (apply Bool.orb_true_iff in H; destruct H as [H|H]);
+      apply N.eqb_eq in H; subst; repeat split; reflexivity.
+  Qed.
+
+  (* what the round trip of the nested word gives (from [S_units]) *)
+  Lemma nested_word f cx' s' w r' r3 :
+    S_units f ->
+    lex_units inner f cx' DBrace s' = Ok (w, r') -> ok_word w = true ->
+    skip_lc r' = c_rbrace :: r3 ->
+    r' = c_rbrace :: r3 /\
+    (forall z, nolc (print_word w ++ c_rbrace :: z) /\
+       lex_units inner (S (S f)) cx' DBrace (print_word w ++ c_rbrace :: z) = Ok (w, c_rbrace :: z)) /\
+    (forall c t, skip_lc s' = c :: t -> (c =? c_rbrace) = false ->
+       exists y, print_word w = c :: y).
+  Proof.
+    intros Hun E Hk Er. destruct (Hun _ _ _ _ _ E Hk ltac:(discriminate)) as (N1 & St & Lf & Hd & Rt).
+    rewrite N1 in Er. subst r'. split; [reflexivity|]. split.
+    - intros z. apply Rt; [apply nolc_cons; reflexivity | reflexivity | exact Lf].
+    - intros c t Es Hc. destruct w as [|u w'].
+      + (* an empty word: the text stopped right away *)
+        exfalso. destruct f as [|f']; [discriminate|]. rewrite lex_units_eq in E. unfold bind in E.
+        destruct (lex_wu inner f' cx' DBrace s') as [[[u|] r0]| | | |] eqn:E0; try discriminate.
+        * destruct (lex_units inner f' cx' DBrace r0) as [[? ?]| | | |]; discriminate.
+        * inv E. apply lex_wu_none in E0. destruct E0 as [E1 E2]. rewrite Es in E1. inv E1.
+          rewrite N.eqb_refl in Hc. discriminate.
+      + destruct (Hd ltac:(discriminate)) as (c0 & x & y & A & B). rewrite Es in A. inv A. eauto.
+  Qed.
+
+  Definition mod_ok (m : modifier) : Prop :=
+    match m with
+    | MSwitch _ _ w | MTrim _ _ w => ok_word w = true
+    | _ => True
+    end.
+
+  Lemma hlp_cons rp :
+    has_length_prefix (c_hash :: rp) =
+    match skip_lc rp with
+    | [] => true
+    | c :: s2 =>
+        if (c =? 125) || (c =? 43) || (c =? 61) || (c =? 58) || (c =? 37) then false
+        else if (c =? 45) || (c =? 63) || (c =? 35) then
+          match skip_lc s2 with c3 :: _ => c3 =? 125 | [] => true end
+        else true
+    end.
+  Proof.
+    unfold has_length_prefix. rewrite skip_lc_nonbslash by reflexivity.
+    change (c_hash =? c_hash) with true. reflexivity.
+  Qed.
+
+  Lemma lex_suffix_rt f cx rp m r2 r3 :
+    S_units f ->
+    lex_suffix (fun cx' s' => lex_units inner f cx' DBrace s') cx rp = Ok (m, r2) ->
+    skip_lc r2 = c_rbrace :: r3 -> mod_ok m ->
+    m <> MLength /\
+    forall z,
+      nolc (print_mod m ++ c_rbrace :: z) /\
+      (exists c t, print_mod m ++ c_rbrace :: z = c :: t /\ is_name_char c = false) /\
+      lex_suffix (fun cx' s' => lex_units inner (S (S f)) cx' DBrace s') cx
+                 (print_mod m ++ c_rbrace :: z) = Ok (m, c_rbrace :: z) /\
+      (has_length_prefix (c_hash :: rp) = false ->
+       has_length_prefix (c_hash :: print_mod m ++ c_rbrace :: z) = false).
+  Proof.
+    intros Hun Em Er Hk. unfold lex_suffix in Em. cbv zeta in Em.
+    pose proof (nolc_skip_lc rp) as Nr0.
+    destruct (skip_lc rp) as [|cB sB] eqn:Er0.
+    { (* nothing after the parameter *)
+      inv Em. cbn [skip_lc] in Er. discriminate. }
+    destruct (cB =? 58) eqn:Ecolon.
+    - (* with a colon *)
+      apply N.eqb_eq in Ecolon. subst cB.
+      destruct (skip_lc sB) as [|sym r1'] eqn:Er1; [discriminate|].
+      destruct ((sym =? 43) || (sym =? 45) || (sym =? 61) || (sym =? 63)) eqn:Esw.
+      + unfold bind in Em.
+        destruct (lex_units inner f cx DBrace r1') as [[w r']| | | |] eqn:Ew; try discriminate.
+        inv Em. split; [discriminate|]. intros z.
+        assert (Hkw : ok_word w = true).
+        { cbn [mod_ok] in Hk. destruct cx; [apply ok_tilde_front|]; exact Hk. }
+        destruct (nested_word _ _ _ _ _ _ Hun Ew Hkw Er) as (-> & Rt & Hh).
+        destruct (Rt z) as [Rn Rl].
+        assert (Ep : print_mod (MSwitch (switch_action_of sym) ScUnsetOrEmpty
+                              match cx with CWord => tilde_front w | CText => w end)
+                     ++ c_rbrace :: z
+                     = 58 :: sym :: print_word w ++ c_rbrace :: z).
+        { cbn [print_mod print_cond app]. rewrite (print_action_of _ Esw).
+          destruct cx; rewrite ?print_tilde_front; reflexivity. }
+        rewrite Ep. destruct (switch_not_name _ Esw) as (A1 & A2 & A3 & A4).
+        split; [apply nolc_cons; reflexivity|].
+        split; [eexists _, _; split; [reflexivity | reflexivity]|].
+        split.
+        * unfold lex_suffix. cbv zeta. rewrite skip_lc_nonbslash by reflexivity.
+          change (58 =? 58) with true. cbv iota.
+          rewrite (skip_lc_nonbslash _ _ A2). rewrite Esw. unfold bind. rewrite Rl. reflexivity.
+        * intros _. rewrite hlp_cons. rewrite skip_lc_nonbslash by reflexivity. reflexivity.
+      + destruct ((sym =? 35) || (sym =? 37)); discriminate.
+    - (* without a colon: the symbol is the first character *)
+      destruct ((cB =? 43) || (cB =? 45) || (cB =? 61) || (cB =? 63)) eqn:Esw.
+      + unfold bind in Em.
+        destruct (lex_units inner f cx DBrace sB) as [[w r']| | | |] eqn:Ew; try discriminate.
+        inv Em. split; [discriminate|]. intros z.
+        assert (Hkw : ok_word w = true).
+        { cbn [mod_ok] in Hk. destruct cx; [apply ok_tilde_front|]; exact Hk. }
+        destruct (nested_word _ _ _ _ _ _ Hun Ew Hkw Er) as (-> & Rt & Hh).
+        destruct (Rt z) as [Rn Rl].
+        assert (Ep : print_mod (MSwitch (switch_action_of cB) ScUnset
+                              match cx with CWord => tilde_front w | CText => w end)
+                     ++ c_rbrace :: z
+                     = cB :: print_word w ++ c_rbrace :: z).
+        { cbn [print_mod print_cond app]. rewrite (print_action_of _ Esw).
+          destruct cx; rewrite ?print_tilde_front; reflexivity. }
+        rewrite Ep. destruct (switch_not_name _ Esw) as (A1 & A2 & A3 & A4).
+        split; [apply nolc_cons; exact A2|].
+        split; [eexists _, _; split; [reflexivity | exact A1]|].
+        split.
+        * unfold lex_suffix. cbv zeta. rewrite (skip_lc_nonbslash _ _ A2).
+          rewrite A3, Esw. unfold bind. rewrite Rl. reflexivity.
+        * rewrite !hlp_cons. rewrite Er0, (skip_lc_nonbslash _ _ A2).
+          destruct ((cB =? 125) || (cB =? 43) || (cB =? 61) || (cB =? 58) || (cB =? 37));
+            [reflexivity|].
+          destruct ((cB =? 45) || (cB =? 63) || (cB =? 35)); [|discriminate].
+          rewrite Rn. destruct (skip_lc sB) as [|cC sC] eqn:EsB; [discriminate|].
+          intros HcC. destruct (Hh _ _ eq_refl HcC) as (y & Ey). rewrite Ey. cbn [app]. exact HcC.
+      + destruct ((cB =? 35) || (cB =? 37)) eqn:Etr.
+        * (* trim *)
+          unfold bind in Em.
+          destruct (trim_not_name _ Etr) as (A1 & A2 & A3 & A4 & A5).
+          destruct (skip_lc sB) as [|cC sC] eqn:EsB.
+          -- (* nothing after the symbol: no closing brace *)
+             exfalso.
+             destruct (lex_units inner f CWord DBrace []) as [[w r']| | | |] eqn:Ew; try discriminate.
+             inv Em. destruct f as [|f']; [discriminate|]. rewrite lex_units_eq in Ew.
+             destruct f' as [|f'']; [discriminate|].
+             rewrite lex_wu_eq in Ew. cbn in Ew. inv Ew. discriminate.
+          -- pose proof (nolc_skip_lc sB) as NsB. rewrite EsB in NsB.
+             destruct (cC =? cB) eqn:Edbl.
+             ++ (* longest *)
+                apply N.eqb_eq in Edbl. subst cC.
+                destruct (lex_units inner f CWord DBrace sC) as [[w r']| | | |] eqn:Ew; try discriminate.
+                inv Em. split; [discriminate|]. intros z.
+                assert (Hkw : ok_word w = true) by (apply ok_tilde_front; exact Hk).
+                destruct (nested_word _ _ _ _ _ _ Hun Ew Hkw Er) as (-> & Rt & Hh).
+                destruct (Rt z) as [Rn Rl].
+                assert (Es : print_side (if cB =? 35 then TsPrefix else TsSuffix) = cB).
+                { destruct (cB =? 35) eqn:X; [apply N.eqb_eq in X; subst; reflexivity|].
+                  cbn [orb] in Etr. apply N.eqb_eq in Etr. subst. reflexivity. }
+                cbn [print_mod]. rewrite print_tilde_front, Es. cbn [app].
+                split; [apply nolc_cons; exact A2|].
+                split; [eexists _, _; split; [reflexivity | exact A1]|].
+                split.
+                ** unfold lex_suffix. cbv zeta. rewrite (skip_lc_nonbslash _ _ A2).
+                   rewrite A3, A5, Etr. rewrite (skip_lc_nonbslash _ _ A2). rewrite N.eqb_refl.
+                   unfold bind. rewrite Rl. reflexivity.
+                ** intros _. rewrite hlp_cons. rewrite (skip_lc_nonbslash _ _ A2).
+                   assert (Hc : cB = 35 \/ cB = 37).
+                   { apply Bool.orb_true_iff in Etr. destruct Etr as [X|X]; apply N.eqb_eq in X; auto. }
+                   destruct Hc; subst cB.
+                   --- change ((35 =? 125) || (35 =? 43) || (35 =? 61) || (35 =? 58) || (35 =? 37))
+                         with false.
+                       change ((35 =? 45) || (35 =? 63) || (35 =? 35)) with true. cbv iota.
+                       rewrite skip_lc_nonbslash by reflexivity. reflexivity.
+                   --- reflexivity.
+             ++ (* shortest *)
+                destruct (lex_units inner f CWord DBrace (cC :: sC)) as [[w r']| | | |] eqn:Ew;
+                  try discriminate.
+                inv Em. split; [discriminate|]. intros z.
+                assert (Hkw : ok_word w = true) by (apply ok_tilde_front; exact Hk).
+                destruct (nested_word _ _ _ _ _ _ Hun Ew Hkw Er) as (-> & Rt & Hh).
+                destruct (Rt z) as [Rn Rl].
+                assert (Es : print_side (if cB =? 35 then TsPrefix else TsSuffix) = cB).
+                { destruct (cB =? 35) eqn:X; [apply N.eqb_eq in X; subst; reflexivity|].
+                  cbn [orb] in Etr. apply N.eqb_eq in Etr. subst. reflexivity. }
+                cbn [print_mod]. rewrite print_tilde_front, Es. cbn [app].
+                split; [apply nolc_cons; exact A2|].
+                split; [eexists _, _; split; [reflexivity | exact A1]|].
+                (* the head of what follows the symbol *)
+                assert (Hhd : exists c1 t1, print_word w ++ c_rbrace :: z = c1 :: t1 /\
+                                (c1 =? cB) = false /\
+                                ((cC =? c_rbrace) = false -> c1 = cC)).
+                { destruct (cC =? c_rbrace) eqn:Y.
+                  - (* the word is empty *)
+                    apply N.eqb_eq in Y. subst cC.
+                    destruct w as [|u w'].
+                    + eexists _, _. split; [reflexivity|]. split; [exact Edbl | discriminate].
+                    + destruct (Hun _ _ _ _ _ Ew Hkw ltac:(discriminate)) as (_ & _ & _ & Hd & _).
+                      destruct (Hd ltac:(discriminate)) as (c0 & x & y & B1 & B2).
+                      rewrite NsB in B1. inv B1. rewrite B2. cbn [app].
+                      eexists _, _. split; [reflexivity|]. split; [exact Edbl | discriminate].
+                  - destruct (Hh _ _ NsB Y) as (y & Ey). rewrite Ey. cbn [app].
+                    eexists _, _. split; [reflexivity|]. split; [exact Edbl | reflexivity]. }
+                destruct Hhd as (c1 & t1 & Hh1 & Hh2 & Hh3).
+                split.
+                ** unfold lex_suffix. cbv zeta. rewrite (skip_lc_nonbslash _ _ A2).
+                   rewrite A3, A5, Etr. rewrite Rn. rewrite Hh1, Hh2. rewrite <- Hh1.
+                   unfold bind. rewrite Rl. reflexivity.
+                ** rewrite !hlp_cons. rewrite Er0, (skip_lc_nonbslash _ _ A2).
+                   destruct ((cB =? 125) || (cB =? 43) || (cB =? 61) || (cB =? 58) || (cB =? 37));
+                     [reflexivity|].
+                   destruct ((cB =? 45) || (cB =? 63) || (cB =? 35)); [|discriminate].
+                   rewrite EsB, Rn, Hh1. intros HcC. rewrite (Hh3 HcC). exact HcC.
+        * (* no modifier: the closing brace *)
+          inv Em. rewrite Nr0 in Er. inv Er. split; [discriminate|]. intros z.
+          cbn [print_mod app].
+          split; [apply nolc_cons; reflexivity|].
+          split; [eexists _, _; split; reflexivity|].
+          split.
+          -- unfold lex_suffix. cbv zeta. rewrite skip_lc_nonbslash by reflexivity. reflexivity.
+          -- intros _. rewrite hlp_cons. rewrite skip_lc_nonbslash by reflexivity. reflexivity.
+  Qed.
+
+  Lemma S_braced_S f : S_all f -> S_braced (S f).
+  Proof.
+    intros (Htu & Hdol & Hbr & Htx & Htwp & Hwu & Hun) cx s u r H Hok.
+    rewrite lex_braced_eq in H. unfold bind in H. cbv zeta in H.
+    destruct (has_length_prefix s) eqn:Epre; cbv beta iota in H.
+    - (* ${#param} *)
+      match type of H with context [lex_param ?x] =>
+        destruct (lex_param x) as [[p rp]| | | |] eqn:Ep; try discriminate end.
+      match type of H with context [lex_suffix ?a ?b ?c] =>
+        destruct (lex_suffix a b c) as [[m r2]| | | |] eqn:Em; try discriminate end.
+      destruct (skip_lc r2) as [|c' r3] eqn:Er2; [discriminate|].
+      destruct (c' =? c_rbrace) eqn:Ec'; [|discriminate].
+      destruct m; try discriminate. inv H.
+      destruct (lex_param_spec _ _ _ Ep) as (c & t & Es0 & Hh & Prt).
+      exists (c_hash :: p_id p ++ [c_rbrace]). split; [reflexivity|]. split; [intros; exact I|].
+      intros z. cbn [app]. rewrite <- app_assoc. cbn [app].
+      rewrite lex_braced_eq. cbv zeta.
+      (* the length prefix is recognised again *)
+      assert (Hp : has_length_prefix (c_hash :: p_id p ++ c_rbrace :: z) = true).
+      { rewrite hlp_cons.
+        assert (Eid : exists t', p_id p = c :: t').
+        { destruct Hh as [(_ & n & -> & _)|(_ & _ & ->)]; eauto. }
+        destruct Eid as (t' & Eid). rewrite Eid. cbn [app].
+        rewrite (skip_lc_nonbslash _ _ (param_head_not_bslash _ _ Hh)).
+        rewrite (param_head_not_mod _ _ Hh).
+        destruct ((c =? 45) || (c =? 63) || (c =? 35)) eqn:X; [|reflexivity].
+        rewrite (param_head_special _ _ Hh X) in Eid. inv Eid. cbn [app].
+        rewrite skip_lc_nonbslash by reflexivity. reflexivity. }
+      rewrite Hp. rewrite (skip_lc_nonbslash c_hash) by reflexivity.
+      rewrite (Prt (c_rbrace :: z)) by (try apply nolc_cons; reflexivity).
+      unfold bind. unfold lex_suffix at 1. cbv zeta.
+      rewrite skip_lc_nonbslash by reflexivity.
+      change (c_rbrace =? 58) with false. cbv iota.
+      change ((c_rbrace =? 43) || (c_rbrace =? 45) || (c_rbrace =? 61) || (c_rbrace =? 63)) with false.
+      change ((c_rbrace =? 35) || (c_rbrace =? 37)) with false. cbv iota.
+      rewrite skip_lc_nonbslash by reflexivity. change (c_rbrace =? c_rbrace) with true.
+      reflexivity.
+    - (* ${param modifier} *)
+      match type of H with context [lex_param ?x] =>
+        destruct (lex_param x) as [[p rp]| | | |] eqn:Ep; try discriminate end.
+      match type of H with context [lex_suffix ?a ?b ?c] =>
+        destruct (lex_suffix a b c) as [[m r2]| | | |] eqn:Em; try discriminate end.
+      destruct (skip_lc r2) as [|c' r3] eqn:Er2; [discriminate|].
+      destruct (c' =? c_rbrace) eqn:Ec'; [|discriminate]. inv H.
+      apply N.eqb_eq in Ec'. subst c'.
+      destruct (lex_param_spec _ _ _ Ep) as (c & t & Es0 & Hh & Prt).
+      assert (Hk : mod_ok m).
+      { cbn [ok_tu] in Hok. destruct m; cbn [mod_ok]; auto. }
+      destruct (lex_suffix_rt _ _ _ _ _ _ Hun Em Er2 Hk) as (Hm & Srt).
+      exists (p_id p ++ print_mod m ++ [c_rbrace]). split; [apply print_braced; exact Hm|].
+      split; [intros; exact I|].
+      intros z. rewrite <- !app_assoc. cbn [app].
+      destruct (Srt z) as (Sn & (cx0 & tx0 & Sx & Sname) & Sl & Sh).
+      rewrite lex_braced_eq. cbv zeta.
+      assert (Eid : exists t', p_id p = c :: t').
+      { destruct Hh as [(_ & n & -> & _)|(_ & _ & ->)]; eauto. }
+      destruct Eid as (t' & Eid).
+      (* no length prefix *)
+      assert (Hp : has_length_prefix (p_id p ++ print_mod m ++ c_rbrace :: z) = false).
+      { destruct (c =? c_hash) eqn:Ech.
+        - apply N.eqb_eq in Ech. subst c.
+          assert (Eid1 : p_id p = [c_hash]) by (apply (param_head_special _ _ Hh); reflexivity).
+          rewrite Eid1. cbn [app]. apply Sh.
+          (* the first run saw no length prefix either *)
+          rewrite <- Epre. unfold has_length_prefix at 2. rewrite Es0.
+          change (c_hash =? c_hash) with true. cbv iota.
+          rewrite hlp_cons.
+          (* the parameter is the single character #, so what follows it is [t] *)
+          unfold lex_param in Ep. rewrite Es0 in Ep. cbn in Ep. inv Ep. reflexivity.
+        - unfold has_length_prefix. rewrite Eid. cbn [app].
+          rewrite (skip_lc_nonbslash _ _ (param_head_not_bslash _ _ Hh)). rewrite Ech. reflexivity. }
+      rewrite Hp.
+      rewrite (Prt (print_mod m ++ c_rbrace :: z) Sn) by (rewrite Sx; exact Sname).
+      unfold bind. rewrite Sl.
+      rewrite skip_lc_nonbslash by reflexivity. change (c_rbrace =? c_rbrace) with true.
+      reflexivity.
+  Qed.
+
+  (* ---- sequences of units ---------------------------------------------------------------------- *)
+
+  Lemma last_opt_cons {A} (x : A) l :
+    last_opt (x :: l) = match l with [] => Some x | _ => last_opt l end.
+  Proof. destruct l; reflexivity. Qed.
+
+  Lemma lex_text_nil f d e s r : lex_text inner f d e s = Ok ([], r) -> r = skip_lc s.
+  Proof.
+    destruct f as [|f]; [discriminate|]. rewrite lex_text_eq. unfold bind. intros H.
+    destruct (lex_tu inner f CText d e s) as [[[u|] r1]| | | |] eqn:E; try discriminate.
+    - destruct (lex_text inner f d e r1) as [[? ?]| | | |]; discriminate.
+    - inv H. apply lex_tu_none in E. apply E.
+  Qed.
+
+  Lemma lex_units_nil f cx d s r : lex_units inner f cx d s = Ok ([], r) -> r = skip_lc s.
+  Proof.
+    destruct f as [|f]; [discriminate|]. rewrite lex_units_eq. unfold bind. intros H.
+    destruct (lex_wu inner f cx d s) as [[[u|] r1]| | | |] eqn:E; try discriminate.
+    - destruct (lex_units inner f cx d r1) as [[? ?]| | | |]; discriminate.
+    - inv H. apply lex_wu_none in E. apply E.
+  Qed.
+
+  Lemma S_text_S f : S_all f -> S_text (S f).
+  Proof.
+    intros (Htu & Hdol & Hbr & Htx & Htwp & Hwu & Hun) d e s t r H Hok.
+    rewrite lex_text_eq in H. unfold bind in H.
+    destruct (lex_tu inner f CText d e s) as [[[u|] r1]| | | |] eqn:E1; try discriminate.
+    - destruct (lex_text inner f d e r1) as [[us r']| | | |] eqn:E2; try discriminate. inv H.
+      unfold ok_text in Hok. cbn [forallb] in Hok. apply andb_prop in Hok. destruct Hok as [Hk1 Hk2].
+      destruct (Htu _ _ _ _ _ _ E1 Hk1) as ((c & x & y & Hs & Hp) & Bu & Ru).
+      destruct (Htx _ _ _ _ _ E2 Hk2) as (Nr & St & Lf & Hd & Rus).
+      split; [exact Nr|]. split; [exact St|].
+      assert (Bu' : us = [] -> fo_tu e u (hd r)).
+      { intros ->. apply lex_text_nil in E2. subst r. exact Bu. }
+      split.
+      { unfold last_fo_text. rewrite last_opt_cons. destruct us as [|u2 us']; [apply Bu'; reflexivity|].
+        exact Lf. }
+      split.
+      { intros _. exists c, x, (y ++ print_text us). split; [exact Hs|].
+        unfold print_text. cbn [cat_map]. fold (print_text us). rewrite Hp. reflexivity. }
+      intros z Hz Hsz Hl.
+      assert (Hl2 : last_fo_text e us (hd z)).
+      { unfold last_fo_text in *. rewrite last_opt_cons in Hl. destruct us; [exact I | exact Hl]. }
+      destruct (Rus z Hz Hsz Hl2) as [N2 L2].
+      assert (Hfu : fo_tu e u (hd (print_text us ++ z))).
+      { destruct us as [|u2 us'].
+        - cbn [print_text cat_map app]. unfold last_fo_text in Hl. cbn [last_opt] in Hl. exact Hl.
+        - destruct (Hd ltac:(discriminate)) as (c2 & x2 & y2 & Hs2 & Hp2).
+          rewrite Hp2. cbn [app hd]. rewrite Hs2 in Bu. exact Bu. }
+      destruct (Ru _ N2 Hfu) as [N1 L1].
+      unfold print_text in *. cbn [cat_map]. rewrite <- app_assoc. split; [exact N1|].
+      rewrite lex_text_eq. unfold bind. rewrite L1, L2. reflexivity.
+    - inv H.
+      apply lex_tu_none in E1. destruct E1 as [-> St].
+      split; [apply nolc_skip_lc|]. split; [exact St|]. split; [exact I|].
+      split; [congruence|].
+      intros z Hz Hsz _. cbn [print_text cat_map app]. split; [exact Hz|].
+      rewrite lex_text_eq. unfold bind.
+      rewrite (lex_tu_stop (S f) CText d e z Hz Hsz). reflexivity.
+  Qed.
+
+  (* a closing parenthesis may follow any unit of an arithmetic expansion *)
+  Lemma fo_rparen u : fo_tu EArith u (Some c_rparen).
+  Proof.
+    destruct u; cbn [fo_tu]; auto.
+  Qed.
+
+  Lemma last_fo_rparen t : last_fo_text EArith t (Some c_rparen).
+  Proof. unfold last_fo_text. destruct (last_opt t); [apply fo_rparen | exact I]. Qed.
+
+  Lemma S_twp_S f : S_all f -> S_twp (S f).
+  Proof.
+    intros (Htu & Hdol & Hbr & Htx & Htwp & Hwu & Hun) depth s t r H Hok z.
+    rewrite lex_twp_eq in H. unfold bind in H.
+    destruct (lex_text inner f DParen EArith s) as [[us r0]| | | |] eqn:E1; try discriminate.
+    (* the text part alone, followed by a closing parenthesis *)
+    assert (Base : ok_text us = true ->
+              lex_twp inner (S (S (S f))) 0 (print_text us ++ c_rparen :: z) = Ok (us, c_rparen :: z)).
+    { intros Hk. destruct (Htx _ _ _ _ _ E1 Hk) as (_ & _ & _ & _ & Rus).
+      destruct (Rus (c_rparen :: z) ltac:(apply nolc_cons; reflexivity) ltac:(reflexivity)
+                  (last_fo_rparen us)) as [_ L].
+      rewrite lex_twp_eq. unfold bind. rewrite L.
+      rewrite skip_lc_nonbslash by reflexivity. reflexivity. }
+    destruct (skip_lc r0) as [|c r1] eqn:Er0.
+    - destruct depth; [|discriminate]. inv H. apply Base. exact Hok.
+    - destruct (c =? c_lparen) eqn:Ec.
+      + destruct (lex_twp inner f (S depth) r1) as [[vs r2]| | | |] eqn:E2; try discriminate. inv H.
+        apply N.eqb_eq in Ec. subst c.
+        unfold ok_text in Hok. rewrite forallb_app in Hok. apply andb_prop in Hok.
+        destruct Hok as [Hk1 Hk2]. cbn [forallb ok_tu andb] in Hk2.
+        destruct (Htx _ _ _ _ _ E1 Hk1) as (Nr & _ & Lf & _ & Rus).
+        rewrite Nr in Er0. subst r0. cbn [hd] in Lf.
+        unfold print_text. rewrite cat_map_app. cbn [cat_map print_tu]. rewrite <- !app_assoc. cbn [app].
+        destruct (Rus (c_lparen :: cat_map print_tu vs ++ c_rparen :: z)
+                    ltac:(apply nolc_cons; reflexivity) ltac:(reflexivity) Lf) as [_ L].
+        rewrite lex_twp_eq. unfold bind. unfold print_text in L. rewrite L.
+        rewrite skip_lc_nonbslash by reflexivity. change (c_lparen =? c_lparen) with true. cbv iota.
+        pose proof (Htwp _ _ _ _ E2 Hk2 z) as L2. unfold print_text in L2. rewrite L2. reflexivity.
+      + destruct depth as [|dep].
+        * inv H. apply Base. exact Hok.
+        * destruct (c =? c_rparen) eqn:Ec2; [|discriminate].
+          destruct (lex_twp inner f dep r1) as [[vs r2]| | | |] eqn:E2; try discriminate. inv H.
+          apply N.eqb_eq in Ec2. subst c.
+          unfold ok_text in Hok. rewrite forallb_app in Hok. apply andb_prop in Hok.
+          destruct Hok as [Hk1 Hk2]. cbn [forallb ok_tu andb] in Hk2.
+          destruct (Htx _ _ _ _ _ E1 Hk1) as (Nr & _ & _ & _ & Rus).
+          unfold print_text. rewrite cat_map_app. cbn [cat_map print_tu]. rewrite <- !app_assoc. cbn [app].
+          destruct (Rus (c_rparen :: cat_map print_tu vs ++ c_rparen :: z)
+                      ltac:(apply nolc_cons; reflexivity) ltac:(reflexivity)
+                      (last_fo_rparen us)) as [_ L].
+          rewrite lex_twp_eq. unfold bind. unfold print_text in L. rewrite L.
+          rewrite skip_lc_nonbslash by reflexivity.
+          change (c_rparen =? c_lparen) with false. change (c_rparen =? c_rparen) with true. cbv iota.
+          pose proof (Htwp _ _ _ _ E2 Hk2 z) as L2. unfold print_text in L2. rewrite L2. reflexivity.
+  Qed.
+
+  (* ---- word units ------------------------------------------------------------------------------- *)
+
+  Lemma lex_single_quote_spec s q r :
+    lex_single_quote s = Ok (q, r) ->
+    forall z, lex_single_quote (q ++ c_sq :: z) = Ok (q, z).
+  Proof.
+    revert q r. induction s as [|c s IH]; intros q r H z; cbn [lex_single_quote] in H; [discriminate|].
+    destruct (c =? c_sq) eqn:E.
+    - inv H. cbn [app lex_single_quote]. change (c_sq =? c_sq) with true. reflexivity.
+    - unfold bind in H. destruct (lex_single_quote s) as [[q' r']| | | |] eqn:E'; try discriminate.
+      inv H. cbn [app lex_single_quote]. rewrite E. unfold bind. rewrite (IH _ _ eq_refl z). reflexivity.
+  Qed.
+
+  Lemma print_eu_nonempty u : (1 <= length (print_eu u))%nat.
+  Proof.
+    destruct u; cbn [print_eu length]; try lia.
+    - destruct (b =? 28); cbn [length]; lia.
+    - destruct (c <=? 65535); cbn [length]; lia.
+  Qed.
+
+  Lemma cat_print_eu_len es : (length es <= length (cat_map print_eu es))%nat.
+  Proof.
+    induction es as [|u es IH]; cbn [cat_map length]; [lia|].
+    rewrite app_length. pose proof (print_eu_nonempty u). lia.
+  Qed.
+
+  Lemma S_wu_S f : S_all f -> S_wu (S f).
+  Proof.
+    intros (Htu & Hdol & Hbr & Htx & Htwp & Hwu & Hun) cx d s u r H Hok.
+    rewrite lex_wu_eq in H. unfold bind in H.
+    destruct (skip_lc s) as [|c s1] eqn:Es; [discriminate|].
+    destruct ((c =? c_sq) && match cx with CWord => true | CText => false end) eqn:Esq.
+    { (* single quotes *)
+      destruct (lex_single_quote s1) as [[q r']| | | |] eqn:E1; try discriminate. inv H.
+      apply andb_prop in Esq. destruct Esq as [Ec Ecx]. apply N.eqb_eq in Ec. subst c.
+      split; [eexists _, _, _; split; reflexivity|]. split; [exact I|].
+      intros z Hz _. cbn [print_wu app]. split; [apply nolc_cons; reflexivity|].
+      rewrite lex_wu_eq. rewrite skip_lc_nonbslash by reflexivity.
+      change (c_sq =? c_sq) with true. rewrite Ecx. cbn [andb]. unfold bind.
+      rewrite <- app_assoc. cbn [app].
+      pose proof (lex_single_quote_spec _ _ _ E1 z) as X. unfold c_sq in X. rewrite X. reflexivity. }
+    destruct (c =? c_dq) eqn:Edq.
+    { (* double quotes *)
+      destruct (lex_text inner f DDQuote EDQuote s1) as [[t r1]| | | |] eqn:E1; try discriminate.
+      destruct (skip_lc r1) as [|c' r'] eqn:Er1; [discriminate|].
+      destruct (c' =? c_dq) eqn:Ec'; [|discriminate]. inv H.
+      apply N.eqb_eq in Edq, Ec'. subst c c'.
+      cbn [ok_wu] in Hok.
+      destruct (Htx _ _ _ _ _ E1 Hok) as (Nr & _ & Lf & _ & Rt).
+      rewrite Nr in Er1. subst r1. cbn [hd] in Lf.
+      split; [eexists _, _, _; split; reflexivity|]. split; [exact I|].
+      intros z Hz _. cbn [print_wu app]. split; [apply nolc_cons; reflexivity|].
+      rewrite lex_wu_eq. rewrite skip_lc_nonbslash by reflexivity.
+      change (c_dq =? c_sq) with false. cbn [andb].
+      change (c_dq =? c_dq) with true. cbv iota. unfold bind.
+      rewrite <- app_assoc. cbn [app].
+      destruct (Rt (c_dq :: z) ltac:(apply nolc_cons; reflexivity) ltac:(reflexivity) Lf) as [_ L].
+      unfold print_text, c_dq in L. rewrite L.
+      rewrite skip_lc_nonbslash by reflexivity. change (c_dq =? c_dq) with true. reflexivity. }
+    (* an unquoted unit, or a dollar-single-quoted string *)
+    destruct (lex_tu inner f cx d (esc_of cx d) (c :: s1)) as [[[tu|] r1]| | | |] eqn:E1;
+      try discriminate.
+    assert (Hc : skip_lc (c :: s1) = c :: s1) by (rewrite <- Es; apply skip_lc_idem).
+    (* the general shape of an unquoted unit *)
+    assert (Gen : forall r0, ok_tu tu = true ->
+              hd (skip_lc r0) = hd (skip_lc r1) ->
+              (cx = CWord -> tu = Literal c_dollar -> hd (skip_lc r0) <> Some c_sq) ->
+              (exists c0 t0 t', c :: s1 = c0 :: t0 /\ print_wu (Unquoted tu) = c0 :: t') /\
+              fo_wu cx d (Unquoted tu) (hd (skip_lc r0)) /\
+              (forall z, nolc z -> fo_wu cx d (Unquoted tu) (hd z) ->
+                 nolc (print_wu (Unquoted tu) ++ z) /\
+                 lex_wu inner (S (S (S f))) cx d (print_wu (Unquoted tu) ++ z) = Ok (Some (Unquoted tu), z))).
+    { intros r0 Hk Hr0 Hq.
+      destruct (Htu _ _ _ _ _ _ E1 Hk) as ((c0 & t0 & t' & Hs & Hp) & Bu & Ru).
+      rewrite Hc in Hs. inv Hs.
+      split; [eexists _, _, _; split; [reflexivity | exact Hp]|].
+      split; [cbn [fo_wu]; rewrite Hr0; split; [exact Bu | rewrite <- Hr0; exact Hq]|].
+      intros z Hz [Hf1 Hf2]. destruct (Ru z Hz Hf1) as [N1 L1].
+      cbn [print_wu]. split; [exact N1|].
+      rewrite lex_wu_eq. rewrite N1. rewrite Hp in L1 |- *. cbn [app] in L1 |- *.
+      rewrite Esq, Edq. unfold bind. rewrite L1.
+      destruct cx; [|reflexivity].
+      destruct tu; try reflexivity.
+      destruct (c =? c_dollar) eqn:Ed; [|reflexivity].
+      apply N.eqb_eq in Ed. subst c.
+      rewrite Hz. destruct z as [|c' z']; [reflexivity|].
+      destruct (c' =? c_sq) eqn:Eq; [|reflexivity].
+      exfalso. apply N.eqb_eq in Eq. subst c'. apply (Hf2 eq_refl eq_refl). reflexivity. }
+    destruct cx.
+    - destruct tu as [c0| | | | | |];
+        try (inv H; cbn [ok_wu] in Hok; apply (Gen _ Hok eq_refl); intros _ X; discriminate).
+      destruct (c0 =? c_dollar) eqn:Ed.
+      + apply N.eqb_eq in Ed. subst c0.
+        destruct (skip_lc r1) as [|c' r'] eqn:Er1.
+        * inv H. apply (Gen [] eq_refl); [reflexivity|].
+          intros _ _. cbn. discriminate.
+        * destruct (c' =? c_sq) eqn:Eq.
+          -- (* $'...' *)
+             destruct (lex_escaped (S (len r')) r') as [[es r'']| | | |] eqn:Ee; try discriminate.
+             inv H. apply N.eqb_eq in Eq. subst c'.
+             destruct (Htu _ _ _ _ _ _ E1 eq_refl) as ((c0 & t0 & t' & Hs & Hp) & Bu & Ru).
+             rewrite Hc in Hs. inv Hs. cbn [print_tu] in Hp. inv Hp.
+             split; [eexists _, _, _; split; reflexivity|]. split; [exact I|].
+             intros z Hz _. cbn [print_wu app]. rewrite <- app_assoc. cbn [app].
+             split; [apply nolc_cons; reflexivity|].
+             rewrite lex_wu_eq. rewrite skip_lc_nonbslash by reflexivity.
+             change (36 =? c_sq) with false. change (36 =? c_dq) with false. cbn [andb].
+             unfold bind.
+             set (z0 := 39 :: cat_map print_eu es ++ 39 :: z).
+             assert (Nz0 : nolc z0) by (apply nolc_cons; reflexivity).
+             assert (Fz0 : fo_tu EAll (Literal c_dollar) (hd z0)).
+             { unfold z0. cbn [fo_tu hd]. split; [intros _; reflexivity | intros X; discriminate X]. }
+             destruct (Ru z0 Nz0 Fz0) as [_ L1]. cbn [print_tu app] in L1.
+             change (c_dollar :: z0) with (36 :: z0) in L1. rewrite L1.
+             change (c_dollar =? c_dollar) with true. cbv iota.
+             rewrite Nz0. unfold z0. change (39 =? c_sq) with true. cbv iota.
+             pose proof (lex_escaped_wf _ _ _ _ Ee) as W.
+             pose proof (escaped_roundtrip_wf es W (S (len (cat_map print_eu es ++ 39 :: z))) z) as X.
+             unfold c_sq in X. rewrite X.
+             ++ reflexivity.
+             ++ rewrite app_length. pose proof (cat_print_eu_len es). cbn [length]. lia.
+          -- inv H.
+             assert (Hn : skip_lc (c' :: r') = c' :: r') by (rewrite <- Er1; apply skip_lc_idem).
+             apply (Gen (c' :: r') eq_refl).
+             ++ rewrite Hn. reflexivity.
+             ++ intros _ _. rewrite Hn. cbn [hd]. intros X. inv X.
+                rewrite N.eqb_refl in Eq. discriminate.
+      + inv H. cbn [ok_wu] in Hok. apply (Gen _ Hok eq_refl).
+        intros _ X. inv X. rewrite N.eqb_refl in Ed. discriminate.
+    - inv H. cbn [ok_wu] in Hok. apply (Gen _ Hok eq_refl). intros X. discriminate.
+  Qed.
+
+  (* nothing to lex: the word stops right away *)
+  Lemma lex_wu_stop f cx d z :
+    d <> DDQuote -> nolc z -> stops d z -> lex_wu inner (S (S f)) cx d z = Ok (None, z).
+  Proof.
+    intros Hd Hz Hs. rewrite lex_wu_eq, Hz. destruct z as [|c z']; [reflexivity|].
+    cbn [stops] in Hs.
+    assert (Hq : (c =? c_sq) && match cx with CWord => true | CText => false end = false).
+    { destruct (c =? c_sq) eqn:X; [|reflexivity]. apply N.eqb_eq in X. subst.
+      destruct d; cbn in Hs; discriminate. }
+    assert (Hdq : (c =? c_dq) = false).
+    { destruct (c =? c_dq) eqn:X; [|reflexivity]. apply N.eqb_eq in X. subst.
+      destruct d; cbn in Hs; try discriminate. congruence. }
+    rewrite Hq, Hdq. unfold bind. rewrite (lex_tu_stop f cx d _ (c :: z') Hz Hs). reflexivity.
+  Qed.
+
+  Lemma S_units_S f : S_all f -> S_units (S f).
+  Proof.
+    intros (Htu & Hdol & Hbr & Htx & Htwp & Hwu & Hun) cx d s w r H Hok Hdd.
+    rewrite lex_units_eq in H. unfold bind in H.
+    destruct (lex_wu inner f cx d s) as [[[u|] r1]| | | |] eqn:E1; try discriminate.
+    - destruct (lex_units inner f cx d r1) as [[us r']| | | |] eqn:E2; try discriminate. inv H.
+      unfold ok_word in Hok. cbn [forallb] in Hok. apply andb_prop in Hok. destruct Hok as [Hk1 Hk2].
+      destruct (Hwu _ _ _ _ _ E1 Hk1) as ((c & x & y & Hs & Hp) & Bu & Ru).
+      destruct (Hun _ _ _ _ _ E2 Hk2 Hdd) as (Nr & St & Lf & Hd & Rus).
+      split; [exact Nr|]. split; [exact St|].
+      assert (Bu' : us = [] -> fo_wu cx d u (hd r)).
+      { intros ->. apply lex_units_nil in E2. subst r. exact Bu. }
+      split.
+      { unfold last_fo_word. rewrite last_opt_cons. destruct us as [|u2 us']; [apply Bu'; reflexivity|].
+        exact Lf. }
+      split.
+      { intros _. exists c, x, (y ++ print_word us). split; [exact Hs|].
+        unfold print_word. cbn [cat_map]. fold (print_word us). rewrite Hp. reflexivity. }
+      intros z Hz Hsz Hl.
+      assert (Hl2 : last_fo_word cx d us (hd z)).
+      { unfold last_fo_word in *. rewrite last_opt_cons in Hl. destruct us; [exact I | exact Hl]. }
+      destruct (Rus z Hz Hsz Hl2) as [N2 L2].
+      assert (Hfu : fo_wu cx d u (hd (print_word us ++ z))).
+      { destruct us as [|u2 us'].
+        - cbn [print_word cat_map app]. unfold last_fo_word in Hl. cbn [last_opt] in Hl. exact Hl.
+        - destruct (Hd ltac:(discriminate)) as (c2 & x2 & y2 & Hs2 & Hp2).
+          rewrite Hp2. cbn [app hd]. rewrite Hs2 in Bu. exact Bu. }
+      destruct (Ru _ N2 Hfu) as [N1 L1].
+      unfold print_word in *. cbn [cat_map]. rewrite <- app_assoc. split; [exact N1|].
+      rewrite lex_units_eq. unfold bind. rewrite L1, L2. reflexivity.
+    - inv H. apply lex_wu_none in E1. destruct E1 as [-> St].
+      split; [apply nolc_skip_lc|]. split; [exact St|]. split; [exact I|].
+      split; [congruence|].
+      intros z Hz Hsz _. cbn [print_word cat_map app]. split; [exact Hz|].
+      rewrite lex_units_eq. unfold bind. rewrite (lex_wu_stop f cx d z Hdd Hz Hsz). reflexivity.
+  Qed.
+
+  Lemma lex_rt : forall f, S_all f.
+  Proof.
+    induction f as [|f IH]; [exact S_all_0|].
+    unfold S_all.
+    pose proof (S_tu_S f IH). pose proof (S_dollar_S f IH). pose proof (S_braced_S f IH).
+    pose proof (S_text_S f IH). pose proof (S_twp_S f IH). pose proof (S_wu_S f IH).
+    pose proof (S_units_S f IH). tauto.
+  Qed.
+
+  (* ---- the word-level round trip --------------------------------------------------------------- *)
+
+  (* Lexing the printed form of a word the lexer produced, followed by any
+     text [z] that does not extend the word, gives the same word and the rest
+     [z]: [z] does not begin with a line continuation, it is empty or starts
+     with a delimiter, and it is compatible with the last unit of the word
+     (a trailing literal `$` is not followed by `(`; after a trailing
+     unquoted backslash nothing follows). *)
+  Theorem lex_units_print f cx d s w r :
+    lex_units inner f cx d s = Ok (w, r) -> ok_word w = true -> d <> DDQuote ->
+    forall z, nolc z -> stops d z -> last_fo_word cx d w (hd z) ->
+    lex_units inner (S (S f)) cx d (print_word w ++ z) = Ok (w, z).
+  Proof.
+    intros H Hk Hd z Hz Hs Hl.
+    destruct (lex_rt f) as (_ & _ & _ & _ & _ & _ & Hun).
+    destruct (Hun _ _ _ _ _ H Hk Hd) as (_ & _ & _ & _ & Rt). apply Rt; assumption.
+  Qed.
+
+  (* the rest the lexer returned itself is such a text *)
+  Theorem lex_units_print_same f cx d s w r :
+    lex_units inner f cx d s = Ok (w, r) -> ok_word w = true -> d <> DDQuote ->
+    lex_units inner (S (S f)) cx d (print_word w ++ r) = Ok (w, r).
+  Proof.
+    intros H Hk Hd.
+    destruct (lex_rt f) as (_ & _ & _ & _ & _ & _ & Hun).
+    destruct (Hun _ _ _ _ _ H Hk Hd) as (Nr & St & Lf & _ & Rt). apply Rt; assumption.
+  Qed.
+
+  (* with the tilde post-processing of the callers of [word] *)
+  Corollary lex_word_print f cx d s w r :
+    lex_units inner f cx d s = Ok (w, r) -> ok_word w = true -> d <> DDQuote ->
+    forall z, nolc z -> stops d z -> last_fo_word cx d w (hd z) ->
+    lex_units inner (S (S f)) cx d (print_word (tilde_front w) ++ z) = Ok (w, z).
+  Proof. intros. rewrite print_tilde_front. eapply lex_units_print; eauto. Qed.
 End Rt.
+
+(* ---- known finding F14: the restriction [ok_word] cannot be dropped ----------------------- *)
+
+From Yv Require Import C06.Parse.
+From Coq Require Ascii String.
+Import Coq.Strings.String.StringSyntax.
+
+(* `$(('(' ) )` followed by `)`: the word is a command substitution, but the
+   printed form followed by a closing parenthesis is read as an arithmetic
+   expansion *)
+Lemma lex_units_print_refuted_witness :
+  let inner := p_inner 200 in
+  let s := lit "$(('(' ) ) " in
+  let z := lit ")" in
+  exists w r,
+    lex_units inner 200 CWord DToken s = Ok (w, r) /\ ok_word w = false /\
+    nolc z /\ stops DToken z /\ last_fo_word CWord DToken w (hd z) /\
+    lex_units inner 202 CWord DToken (print_word w ++ z) <> Ok (w, z).
+Proof.
+  cbv zeta. eexists _, _. split; [vm_compute; reflexivity|].
+  split; [vm_compute; reflexivity|]. split; [reflexivity|]. split; [reflexivity|].
+  split; [vm_compute; split; [exact I | intros _ X; discriminate X]|]. vm_compute. discriminate.
+Qed.
